@@ -193,9 +193,9 @@ pub fn def(tier: Tier) -> PropertyDef {
         rule: "A (permutation): messy traces with lifecycle ids/table from the real detector or arbitrary ids (known, 0, unknown) against a table of real Lifecycle values, window 1..10 s, min delay 0..60 s; output must be a permutation (whole-message equality). B (ordering): 1..5 lifecycles on 1..3 ECUs with known starts, non-decreasing reception clock, per message a delay in [0, min delay] (all times multiples of 0.1 ms so the bound holds exactly), control requests and messages whose start+timestamp exceeds the reception time (capped); output ordered by (calculated time, input index). Non-trivial (B): >=2 lifecycles used and >=1 inversion in the input.",
         assumptions: vec!["calculated time recomputed by the harness from the statement: min(lifecycle start + timestamp, reception); reception for control requests", "input indices increase in input order (as every producer in adlt numbers them)"],
         subs: vec![
-            sub("ordered_under_bound", tier.pick(60_000, 2_000_000), sort_case(60), ordered).rates(&[("input_inverted", 0.3), ("ge2_lifecycles", 0.3), ("capped_at_reception", 0.2), ("control_request", 0.2), ("delayed_message", 0.4)]).boxed(),
-            sub("ordered_long", tier.pick(3_000, 100_000), sort_case(600), ordered).boxed(),
-            sub("permutation_any_input", tier.pick(40_000, 1_000_000), (prop::collection::vec(ev(3), 0..80), 1u8..=10, prop_oneof![Just(0u32), 0u32..600_000], prop::collection::vec(any::<u16>(), 0..8), any::<bool>()), any_input)
+            sub("ordered_under_bound", tier.pick(600_000, 8_000_000), sort_case(60), ordered).rates(&[("input_inverted", 0.3), ("ge2_lifecycles", 0.3), ("capped_at_reception", 0.2), ("control_request", 0.2), ("delayed_message", 0.4)]).boxed(),
+            sub("ordered_long", tier.pick(30_000, 400_000), sort_case(600), ordered).boxed(),
+            sub("permutation_any_input", tier.pick(400_000, 5_000_000), (prop::collection::vec(ev(3), 0..80), 1u8..=10, prop_oneof![Just(0u32), 0u32..600_000], prop::collection::vec(any::<u16>(), 0..8), any::<bool>()), any_input)
                 .rates(&[("table_from_detector", 0.3), ("arbitrary_ids", 0.3)])
                 .boxed(),
         ],
